@@ -111,6 +111,7 @@ func (x *Exec) execInstr(fr *Frame, st *State, ins ssa.Instruction) {
 		x.objCtr++
 		fr.vals[t] = fmt.Sprintf("(- %d)", x.objCtr)
 	case *ssa.MakeClosure:
+		x.closureRequires(fr, st, t)
 		n := x.vc.freshConst("clo", "Fn")
 		x.vc.assert(fmt.Sprintf("(not (= %s fn_nil))", n))
 		ci := &closureInfo{fn: t.Fn.(*ssa.Function)}
@@ -259,6 +260,25 @@ func (x *Exec) storeTo(fr *Frame, st *State, addr ssa.Value, vt types.Type, v st
 func (x *Exec) loadFrom(fr *Frame, st *State, addr ssa.Value) string {
 	if la, ok := fr.laddr[addr]; ok && la != nil {
 		return x.cellRead(st, la)
+	}
+	// a captured variable that is never written after its single initialisation reads the same
+	// everywhere in the closure, whatever is called in between
+	if fv, ok := addr.(*ssa.FreeVar); ok && fr.depth == 0 && fr.fn.Parent() != nil {
+		if x.immCap == nil {
+			x.immCap = map[*ssa.FreeVar]string{}
+		}
+		if t, known := x.immCap[fv]; known {
+			if t != "" {
+				return t
+			}
+		} else if immutableCapture(fr.fn, fv, 0) {
+			et := deref(fv.Type())
+			t := x.vc.define("cap_"+sanitize(fv.Name()), x.vc.sortOf(et), x.load(st, et, x.val(fr, st, addr)))
+			x.immCap[fv] = t
+			return t
+		} else {
+			x.immCap[fv] = ""
+		}
 	}
 	et := deref(addr.Type())
 	if g, ok := addr.(*ssa.Global); ok && x.p.globalImmutable(g) {
@@ -844,10 +864,6 @@ func (x *Exec) goStmt(fr *Frame, st *State, t *ssa.Go) {
 	if fr.depth == 0 && fr.contract != nil && len(fr.contract.OnGo) > 0 {
 		x.applyGhostEffects(fr, st, fr.contract.OnGo, "true", nil)
 	}
-	// captured heap cells written by the closure
-	if mc, ok := t.Call.Value.(*ssa.MakeClosure); ok {
-		_ = mc
-	}
 }
 
 // ---------- defers ----------
@@ -872,5 +888,39 @@ func (x *Exec) runDefers(fr *Frame, st *State) {
 		st2.reach = x.vc.define("r", "Bool", and(r, not(flag)))
 		m := x.mergeStates([]*State{st1, st2}, "defer")
 		*st = *m
+	}
+}
+
+// closureRequires: a contract on a closure may state pre-conditions over its captured variables;
+// they are proved where the closure is created (MakeClosure), with the values the variables have
+// at that moment, and are assumed when the closure body is verified as a unit of its own.
+func (x *Exec) closureRequires(fr *Frame, st *State, mc *ssa.MakeClosure) {
+	cfn := mc.Fn.(*ssa.Function)
+	fc, has := x.db.Funcs[cfn.String()]
+	if !has || len(fc.Requires) == 0 || !x.wantObl(fc.Props) || x.mode == "lemma" {
+		return
+	}
+	env := &SpecEnv{x: x, names: map[string]specVal{}, st: st, old: fr.entryOrSelf(st)}
+	env.pkg = x.pkgOfContract(fc.Pkg, cfn)
+	env.callerFrame = fr
+	for i, fv := range cfn.FreeVars {
+		if i >= len(mc.Bindings) {
+			break
+		}
+		b := mc.Bindings[i]
+		et := deref(fv.Type())
+		var term string
+		if la, isLocal := fr.laddr[b]; isLocal && la != nil {
+			term = x.cellRead(st, la)
+		} else {
+			term = x.loadFrom(fr, st, b)
+		}
+		env.names[fv.Name()] = specVal{term: term, typ: et}
+	}
+	for _, r := range fc.Requires {
+		goal := x.evalBool(env, r.Expr)
+		x.callCount["closure:"+cfn.String()]++
+		name := fmt.Sprintf("%s/requires:%s@closure:%s#%d", shortFn(fr.fn), r.Label, shortFn(cfn), x.callCount["closure:"+cfn.String()])
+		x.addObl(st, "requires", name, goal, x.p.pos(mc.Pos()), r.Text)
 	}
 }
